@@ -22,7 +22,8 @@ const c20 = "C20"
 
 type reg struct {
 	ok       bool
-	unsub    int32 // 0 never, 1 unsubscribed before the close was initiated, 2 unsubscribed concurrently with / after close start
+	unsub    int32 // 0 never, 1 unsubscribe returned with the closed flag still unset, 2 unsubscribed after the flag was set
+	unsubMid bool  // unsub == 1 although the shutdown had already been initiated
 	calls    atomic.Int32
 	flagSeen atomic.Bool // closed flag was set when the listener ran
 	flagBad  atomic.Bool
@@ -39,7 +40,7 @@ type c20lisCase struct {
 }
 
 func TestC20_Listeners(t *testing.T) {
-	ev.Rule(c20, "listeners: 1..8 goroutines register OnClosed / Context().OnDisconnected listeners (and unsubscribe a drawn subset) on the client-side or server-side connection object while the connection is shut down by client Close, by the peer (server-side close / raw socket close) at a drawn moment; oracle after quiescence (checked twice, 100 ms apart): ok=true and not unsubscribed => exactly one call, made after Closed() is set; ok=false => never called; unsubscribed before the close was initiated => never called; unsubscribed concurrently => 0 or 1 calls; non-trivial = >=1 registration overlapped the shutdown (registrations both before and after the close in one goroutine); distinct by (config, outcome vector) hash")
+	ev.Rule(c20, "listeners: 1..8 goroutines register OnClosed / Context().OnDisconnected listeners (and unsubscribe a drawn subset) on the client-side or server-side connection object while the connection is shut down by client Close, by the peer (server-side close / raw socket close) at a drawn moment; oracle after quiescence (checked twice, 100 ms apart): ok=true and not unsubscribed => exactly one call, made after Closed() is set; ok=false => never called; unsubscribed and the closed flag still unset when the unsubscribe returned (also in the middle of a shutdown) => never called; unsubscribed later => 0 or 1 calls; non-trivial = >=1 registration overlapped the shutdown (registrations both before and after the close in one goroutine); distinct by (config, outcome vector) hash")
 	ev.Check(t, c20, func(rt *rapid.T) {
 		defer drawSched(rt).install()() // seeded yields at the library's schedule points
 		g := rapid.IntRange(1, 8).Draw(rt, "registrars")
@@ -135,10 +136,16 @@ func TestC20_Listeners(t *testing.T) {
 								sawClosed = true
 							}
 							if r.ok && unsubEvery > 0 && k%unsubEvery == 0 {
-								before := !closeInit.Load()
+								// "before the close": the unsubscribe returned and the connection's closed flag was
+								// still unset afterwards. The flag is set before any listener runs, so the listener
+								// was removed before the notification could start, however far the shutdown
+								// (context cancelled, socket closed) had already got.
 								unsub()
-								if before && !closeInit.Load() {
+								if !target.Closed().IsSet() {
 									r.unsub = 1
+									if closeInit.Load() {
+										r.unsubMid = true
+									}
 								} else {
 									r.unsub = 2
 								}
@@ -223,7 +230,7 @@ func TestC20_Listeners(t *testing.T) {
 					case r.ok && r.unsub == 0 && n != 1:
 						fail = failure{"listeners:not-exactly-once", fmt.Sprintf("%s: listener invoked %d times, want exactly 1", desc, n)}
 					case r.ok && r.unsub == 1 && n != 0:
-						fail = failure{"listeners:called-after-unsub", fmt.Sprintf("%s: unsubscribed before the close was initiated but invoked %d time(s)", desc, n)}
+						fail = failure{"listeners:called-after-unsub", fmt.Sprintf("%s: unsubscribed while the closed flag was still unset (shutdown already initiated: %v) but invoked %d time(s)", desc, r.unsubMid, n)}
 					case r.ok && r.unsub == 2 && n > 1:
 						fail = failure{"listeners:not-exactly-once", fmt.Sprintf("%s: listener invoked %d times", desc, n)}
 					}
@@ -355,6 +362,14 @@ func TestC20_Handlers(t *testing.T) {
 				if victim != nil {
 					interesting = true
 					kase.Frames = append(kase.Frames, fmt.Sprintf("duplicate open of live id %d", victim.id))
+					// the victim's handler has to be running first (it identifies itself by its first
+					// message; once the connection is torn down that message may never be delivered)
+					for dl := time.Now().Add(boundArrive()); get(victim.id).calls.Load() == 0; {
+						if time.Now().After(dl) {
+							ev.Violation(rt, c20, "handlers:missing", kase, "no handler invocation for opened channel id %d within %v", victim.id, boundArrive())
+						}
+						time.Sleep(200 * time.Microsecond)
+					}
 					peer.WriteMsg(netfx.OpenMsg(netfx.MakeID(victim.id), 1<<20, payload(victim)))
 					// the connection must end; no second handler for that id
 					if err := peer.ExpectEOF(boundArrive()); err != nil {
